@@ -122,9 +122,13 @@ claim('C06',
       "exactly the full limbs plus a non-zero partial top limb, no bit at or above len*k - the two contracts are inverse relations, so the round trip is exact. "
       "mpz_sizeinbase is the exact digit count ceil(bitlength/k), 1 for zero. mpz_get_str for the bases 2,4,8,16,32,-2,-16 over that proved mpn_get_str contract: minus sign, every digit "
       "character (lower / upper case alphabet), terminating NUL, a caller block of sizeinbase+2 bytes suffices, a block allocated for the caller is resized to exactly strlen+1 bytes, "
-      "nothing leaks (defect e76c625 - int loop counter - was found here).",
+      "nothing leaks (defect e76c625 - int loop counter - was found here). mpz_set_str for base 16 (unit mpz_set_str_b16, unbounded string length, over the proved mpn_set_str contract): leading white space, optional '-', "
+      "skipped leading zeros and blanks, -1 exactly when the first character after the sign or some non-blank character of the digit part is no hexadecimal digit (with a witness position; x then unchanged), 0 for an all-zero digit part, sign, "
+      "every digit character lands in the 4-bit field given by its rank among the non-blank characters, the destination block is large enough for what mpn_set_str writes (floating-point size estimate), the top limb is non-zero, the scratch block is released on every path. "
+      "BOUNDED stand-in for the bases that are no power of two (unit mpz_str_enum, not proof): 19352 structured digit strings (zero runs, (base-1) runs, lengths around the algorithm thresholds up to 4500 digits) in 8 bases: "
+      "mpz_set_str == Horner evaluation, mpz_get_str == the digits, sizeinbase within one of the digit count.",
       TB + "NOT covered: every base that is not a power of two (mpn_sb_get_str / mpn_dc_get_str / mpn_bc_set_str / mpn_dc_set_str: multi-limb division and "
-      "multiplication by powers of the base - needs mathematical integers), mpz_get_str for other bases, every string PARSER (mpz_set_str: sign, prefix, whitespace, leading zeros), the mpq/mpf string layers, "
+      "multiplication by powers of the base - needs mathematical integers), mpz_get_str for other bases (beyond the bounded enumeration), mpz_set_str for bases other than 16 incl. the base-0 prefix rules (proof), the mpq/mpf string layers, "
       "mpz_inp_str/out_str, mpz_sizeinbase for other bases. mpn_set_str: 'every digit is below the base' is a precondition, "
       "instantiated at the digit each loop iteration reads; its `for (s = end; s >= str; s--)` header is evaluated as 'stop when s == str' (DESIGN 11.2).")
 claim('C18',
@@ -140,7 +144,7 @@ claim('C18',
 claim('C19',
       "Range post-conditions with the generator behind _gmp_rand as an assumed contract: gmp_urandomb_ui < 2^bits; gmp_urandomm_ui in [0,n-1] "
       "including the 80-iteration fallback (loop unwound completely) and DIVIDE_BY_ZERO exactly for n == 0; mpn_urandomm: result < modulus "
-      "(highest differing limb smaller, limbs above equal); mpz_urandomb: well formed, non-negative, below 2^nbits for every nbits; mpz_urandomm: 0 <= result < |n| against the ORIGINAL n also when rop == n (temporary copy freed, no leak), 0 for n == 1, DIVIDE_BY_ZERO for n == 0. randget_lc (thorough tier): the "
+      "(highest differing limb smaller, limbs above equal); mpz_urandomb: well formed, non-negative, below 2^nbits for every nbits; mpz_urandomm: 0 <= result < |n| against the ORIGINAL n also when rop == n (temporary copy freed, no leak), 0 for n == 1, DIVIDE_BY_ZERO for n == 0, and - the property's power-of-two detection - unless |n| is a power of two (witness: the top limb, or a non-zero lower limb at a ghost position) the generator is asked for exactly bitlength(|n|) bits, so no part of [0, n) is excluded by a too small bit count. randget_lc (thorough tier): the "
       "LC generator meets that assumed generator contract for every m2exp <= 2^30 and every nbits - no bit at or above nbits, no write outside the destination - "
       "over an assumed contract of one lc() step (defect ea6e797 was found here). randseed_lc: after seeding every state limb is the limb of seed mod 2^m2exp or "
       "zero, so nothing of the previous state survives (reproducibility of re-seeded states).",
